@@ -24,6 +24,7 @@ class Knobs:
         self.finally_abrupt = False   # break/continue/return/throw inside `finally`
         self.catch_abrupt = True      # throw/return/break inside catch bodies
         self.zero_div = True
+        self.closure_bias = 0.0       # extra probability of closure declarations / calls per statement
         self.d14_shapes = False       # abrupt exits from catch bodies of a `do` that has a `finally`
         self.__dict__.update(kw)
 
@@ -54,6 +55,23 @@ class Gen:
         self.counter = 0
         self.defs = []          # (name, [(p, ty)], ret, rank)
         self.features = set()
+        # static cost accounting keeps the call tree polynomial: cost[f] ~ number of calls one call of f makes
+        self.cost = {}
+        self.lam_max = 1
+        self.last_lam_cost = 1
+
+    CALL_BUDGET = 150
+    TOTAL_BUDGET = 1500
+
+    def charge(self, ctx, name):
+        """may a call of `name` be generated here? charges its cost to the enclosing body"""
+        c = self.cost.get(name, self.lam_max)
+        mult = ctx.get("mult", 1)
+        acc = ctx.setdefault("acc", [0])
+        if mult * c > self.CALL_BUDGET or acc[0] + mult * c > self.TOTAL_BUDGET:
+            return False
+        acc[0] += mult * c
+        return True
 
     # -- helpers
     def fresh(self, p="v"):
@@ -143,6 +161,8 @@ class Gen:
         if not cands:
             return None
         kind, name, ps = self.pick(cands)
+        if not self.charge(ctx, name):
+            return None
         args = " ".join(self.expr(sc, (p if isinstance(p, str) else p[1]), d - 1, ctx) for p in ps)
         if kind == "def":
             self.features.add("call-def")
@@ -212,11 +232,13 @@ class Gen:
             n = self.fresh("a")
             inner.vars[n] = (p, True)
             params.append(f"({n} {p})")
-        c2 = dict(ctx, loops=[], in_fn=True, ret=ret, in_finally=False)
+        c2 = dict(ctx, loops=[], in_fn=True, ret=ret, in_finally=False, acc=[0], mult=1)
         if self.r.random() < 0.5 or d <= 0:
             body = f"(expr {self.expr(inner, ret, max(d - 1, 0), c2)})"
         else:
             body = self.block(inner, max(d - 1, 1), c2, final_ty=ret)
+        self.last_lam_cost = 1 + c2["acc"][0]
+        self.lam_max = max(self.lam_max, self.last_lam_cost)
         return f"(lam ({' '.join(params)}) {ret} {body})"
 
     # -- statements
@@ -235,6 +257,20 @@ class Gen:
         r = self.r
         k = self.k
         c = r.random()
+        if k.closures and k.closure_bias and r.random() < k.closure_bias and not ctx.get("pure"):
+            fs = [(n, t) for n, (t, m) in sc.lookup_all().items() if t.startswith("(fn")]
+            if fs and r.random() < 0.6 and self.charge(ctx, fs[0][0]):
+                n, t = fs[0]
+                fs_rest = fs[1:]
+                if fs_rest and r.random() < 0.7:
+                    cand = self.pick(fs_rest)
+                    if self.charge(ctx, cand[0]):
+                        n, t = cand
+                args = " ".join(self.expr(sc, p_, 1, ctx) for p_ in self.fn_params(t))
+                self.features.add("call-clo")
+                call = f"(callc (var {n}) {args})".replace(" )", ")")
+                return f"(print {call})" if r.random() < 0.7 else f"(expr {call})"
+            return self.decl(sc, d, ctx, force_closure=True)
         if c < 0.22:
             return self.decl(sc, d, ctx)
         if c < 0.34:
@@ -298,9 +334,9 @@ class Gen:
             return f"(if {self.bool_expr(sc, 2, ctx)} ({s}) ())"
         return s
 
-    def decl(self, sc, d, ctx):
+    def decl(self, sc, d, ctx, force_closure=False):
         r = self.r
-        c = r.random()
+        c = r.random() if not force_closure else 0.95
         name = self.fresh()
         if c < 0.5:
             ty, ann = INT, "_"
@@ -318,6 +354,8 @@ class Gen:
             ty, ann = INT, "_"
         e = self.expr(sc, ty, min(d, 2), ctx)
         sc.vars[name] = (ty, True)
+        if ty.startswith("(fn"):
+            self.cost[name] = self.last_lam_cost if e.startswith("(lam") else self.lam_max
         return f"(decl {name} {ann} {e})"
 
     def loop(self, sc, d, ctx):
@@ -327,7 +365,8 @@ class Gen:
         bound = r.randint(1, 4)
         lbl = self.fresh("l") if (self.k.labels and r.random() < 0.5) else "_"
         sc.vars[i] = (INT, False)   # the counter is never reassigned by generated code
-        c2 = dict(ctx, loops=ctx["loops"] + [lbl], in_finally=False)
+        c2 = dict(ctx, loops=ctx["loops"] + [lbl], in_finally=False, mult=ctx.get("mult", 1) * (bound + 1))
+        c2.setdefault("acc", ctx.setdefault("acc", [0]))
         body_sc = Scope(sc)
         inc = f"(expr (assign {i} (bin add (var {i}) (int 1))))"
         if r.random() < 0.7:
@@ -395,13 +434,14 @@ class Gen:
             sc = Scope(None, boundary=True)
             for p, t in ps:
                 sc.vars[p] = (t, True)
-            ctx = {"loops": [], "in_fn": True, "ret": ret, "rank": rank, "in_finally": False}
+            ctx = {"loops": [], "in_fn": True, "ret": ret, "rank": rank, "in_finally": False, "acc": [0], "mult": 1}
             body = self.block(sc, self.k.max_depth, ctx, final_ty=ret)
+            self.cost[name] = 1 + ctx["acc"][0]
             plist = " ".join(f"({p} {t})" for p, t in ps)
             texts.append(f"(def {name} ({plist}) {ret} {body})")
         r.shuffle(texts)
         sc = Scope(None, boundary=True)
-        ctx = {"loops": [], "in_fn": False, "ret": None, "rank": 10 ** 6, "in_finally": False}
+        ctx = {"loops": [], "in_fn": False, "ret": None, "rank": 10 ** 6, "in_finally": False, "acc": [0], "mult": 1}
         main = self.block(sc, self.k.max_depth, ctx, n=r.randint(3, 7))
         # make sure results of the methods are observed
         for name, ps, ret, rank in sigs:
